@@ -21,7 +21,7 @@ from fim.user.interface import InterfaceType
 from fim.user.link import LinkType
 from fim.user.network_service import ServiceType, MirrorDirection
 from fim.slivers.attached_components import ComponentType
-from fim.slivers.capacities_labels import Capacities, Labels
+from fim.slivers.capacities_labels import Capacities, Labels, ReservationInfo
 
 NODE_NAMES = ['n1', 'n2', 'n3', 'n9', 'fac1', 'sw1']
 NN = len(NODE_NAMES)
@@ -54,6 +54,17 @@ PROP_COMBOS = [lambda: dict(labels=None, capacities='x'), lambda: dict(capacitie
 
 NI = 11     # size of the interface pool: the first 9 node interfaces of the skeleton + the facility interface + a stale handle
 NSV = 7     # SVC_NAMES + a stale service handle
+
+
+def prune_pool(t):
+    """ten elements of every kind for prune(): nodes, components (with connected / free / multi-ended-link ports), services, node interfaces.
+    In S4 the elements whose removal is a LISTED finding (owner of the connected sub-interface, peered services) are not in the pool."""
+    pool = list(t.interface_list)
+    if 'sw1' in t.nodes:     # S4
+        return [t.nodes['n3'], t.nodes['n2'], t.nodes['n3'].components['fpga1'], t.nodes['n1'].components['gpu1'], t.nodes['n2'].components['nic3'],
+                t.network_services['sts1'], t.network_services['br1'], pool[0], pool[6], pool[8]]
+    return [t.nodes['n1'], t.nodes['n3'], t.nodes['n1'].components['nic2'], t.nodes['n1'].components['gpu1'], t.nodes['n2'].components['nic3'],
+            t.network_services['sts1'], t.network_services['ptp1'], pool[0], pool[4], pool[5]]
 
 
 def node_ifaces(t):
@@ -92,6 +103,7 @@ class Step:
     def __init__(self):
         self.raised = None
         self.gone_root = None       # node id of the element a removal addressed
+        self.gone_roots = None      # node ids of all elements a prune addressed
         self.disconnect = None      # node id of a node interface that was disconnected
         self.handle = None
         self.handle_fresh = None
@@ -109,7 +121,7 @@ USES = {
     'add_switch': (6, 3, 3, 0), 'add_child_interface': (6, 2, 4, 0), 'remove_child_interface': (6, 2, 0, 0), 'add_storage': (2, 4, 0, 0),
     'add_port_mirror_service': (4, NI, 3, 0), 'rename_node': (2, 6, 0, 0), 'set_node_property': (2, 3, 3, 0),
     'peer': (NSV, NSV, 0, 0), 'unpeer': (NSV, NSV, 0, 0), 'remove_link': (3, 0, 0, 0),
-    'set_properties': (9, 9, 0, 0), 'unset_property': (9, 6, 0, 0),
+    'prune': (4, 4, 4, 2), 'remove_node_service': (3, 3, 0, 0), 'set_properties': (9, 9, 0, 0), 'unset_property': (9, 6, 0, 0),
     'add_link': (2, 2, 2, 3), 'remove_switch': (6, 0, 0, 0), 'remove_storage': (3, 3, 0, 0),
 }
 USES.update({'add_component': (3, 6, 5, 0), 'add_component_known_model': (2, 3, 6, 1), 'remove_component': (3, 6, 0, 0),
@@ -131,7 +143,8 @@ def do_step(t, op, a, b, c, n, m, picks, symbolic_values, uses=None):
     b = _concretize(b, ub) if ub else 0
     c = _concretize(c, uc) if uc else 0
     npick = (c % 4) if op == 'add_network_service' else (2 + c % 2 if op == 'add_link' else up)
-    picks = [_concretize(picks[i], 7 if op in ('add_network_service', 'add_link') else 9) if i < npick else 0 for i in range(len(picks))]
+    pb = {'add_network_service': 7, 'add_link': 7, 'prune': 4, 'add_component_known_model': 3}.get(op, 9)
+    picks = [_concretize(picks[i], pb) if i < npick else 0 for i in range(len(picks))]
     return untraced(_do_step, t, op, a, b, c, 2, MODEL_POOL[c % 5] if op == 'add_component' else 'x', picks)
 
 
@@ -253,12 +266,29 @@ def _do_step(t, op, a, b, c, n, m, picks):
             if nm in t.nodes and t.nodes[nm].type == NodeType.Switch:
                 st.gone_root = t.nodes[nm].node_id
             t.remove_switch(name=nm)
+        elif op == 'remove_node_service':
+            # the service of a facility / switch node, removed through the node (its interface may be connected to a slice-wide service)
+            node = t.facilities['fac1'] if a % 3 == 0 else t.nodes[['sw1', 'n1'][a % 3 - 1]]
+            nm = ['fac1-ns', 'sw1-ns', 'nope'][b % 3]
+            if nm in node.network_services:
+                st.gone_root = node.network_services[nm].node_id
+            node.remove_network_service(nm)
         elif op == 'remove_storage':
             node = t.nodes[CNODES[a % 3]]
             cn = ['vol1', 'vol9', 'nic1'][b % 3]
             if cn in node.components:
                 st.gone_root = node.components[cn].node_id
             node.remove_storage(cn)
+        elif op == 'prune':
+            # mark a symbolic subset of ten elements (2 bits per index) as failed, then prune that state
+            bits = []
+            for v in (a, b, c, picks[0], picks[1]):
+                bits += [v % 2 == 1, (v // 2) % 2 == 1]
+            marked = [e for e, bit in zip(prune_pool(t), bits) if bit]
+            for e in marked:
+                e.set_property('reservation_info', ReservationInfo(reservation_state='failed'))
+            st.gone_roots = [e.node_id for e in marked]
+            t.prune('failed')
         elif op == 'set_properties':
             e = _elements(t)[a % 9]
             e.set_properties(**PROP_COMBOS[b % len(PROP_COMBOS)]())
@@ -285,7 +315,7 @@ def _do_step(t, op, a, b, c, n, m, picks):
 
 ADD_OPS = ['set_properties', 'unset_property', 'add_link', 'peer', 'add_node', 'add_component', 'add_component_known_model', 'add_network_service', 'connect_interface', 'add_facility', 'add_switch',
            'add_child_interface', 'add_storage', 'add_port_mirror_service', 'rename_node', 'set_node_property']
-REMOVE_OPS = ['remove_switch', 'remove_storage', 'unpeer', 'remove_link', 'remove_node', 'remove_component', 'remove_network_service', 'disconnect_interface', 'remove_facility',
+REMOVE_OPS = ['prune', 'remove_node_service', 'remove_switch', 'remove_storage', 'unpeer', 'remove_link', 'remove_node', 'remove_component', 'remove_network_service', 'disconnect_interface', 'remove_facility',
               'remove_child_interface']
 ALL_OPS = ADD_OPS + REMOVE_OPS
 
@@ -305,7 +335,13 @@ def removal_expected(pre, st):
         return expected_after_removal(pre, out)
     if st.gone_root is not None and nodes[st.gone_root].get('Class') == 'Link':
         return expected_after_removal(pre, [st.gone_root])
-    if st.gone_root is not None:
+    if st.gone_roots is not None:
+        gone = []
+        for r_ in st.gone_roots:
+            for g in owned_closure(pre, r_):
+                if g not in gone:
+                    gone.append(g)
+    elif st.gone_root is not None:
         gone = owned_closure(pre, st.gone_root)
     elif st.disconnect is not None:
         gone = []
@@ -356,6 +392,8 @@ def mk(prop, kind, op, small=False):
         pre = untraced(snap, t)
         if small and op == 'add_network_service':
             c = c % 2        # quick tier: at most one interface handed to the new service
+        if small and op == 'prune':
+            p1 = 0           # quick tier: the last two of the ten elements stay unmarked (256 subsets)
         if small and op == 'add_link':
             c = 0            # quick tier: two interfaces handed to the new link
         if small and prop == 'C09' and op == 'add_component':
@@ -374,7 +412,7 @@ def mk(prop, kind, op, small=False):
         if prop == 'C08':
             if st.raised is not None:
                 return True
-            if st.gone_root is None and st.disconnect is None and st.unpeer is None:
+            if st.gone_root is None and st.disconnect is None and st.unpeer is None and not st.gone_roots:
                 # nothing was addressed that exists: nothing may change
                 return untraced(same_snap, pre, post) if op in REMOVE_OPS else True
             exp = untraced(removal_expected, pre, st)
